@@ -643,10 +643,17 @@ impl<'de> de::Deserializer<'de> for Variable {
             Variable::String(v) => visitor.visit_string(v),
             Variable::Array(v) => {
                 let len = v.len();
-                visitor.visit_seq(SeqDeserializer {
+                let mut deserializer = SeqDeserializer {
                     iter: v.into_iter(),
                     len,
-                })
+                };
+                let ret = visitor.visit_seq(&mut deserializer)?;
+                // Like serde_json, reject input the visitor did not consume.
+                if deserializer.iter.len() == 0 {
+                    Ok(ret)
+                } else {
+                    Err(de::Error::invalid_length(len, &"fewer elements in array"))
+                }
             }
             Variable::Object(v) => visitor.visit_map(MapDeserializer {
                 iter: v.into_iter(),
@@ -838,14 +845,21 @@ impl<'de> de::Deserializer<'de> for SeqDeserializer {
     type Error = Error;
 
     #[inline]
-    fn deserialize_any<V>(self, visitor: V) -> Result<V::Value, Error>
+    fn deserialize_any<V>(mut self, visitor: V) -> Result<V::Value, Error>
     where
         V: de::Visitor<'de>,
     {
-        if self.len == 0 {
+        let len = self.len;
+        if len == 0 {
             visitor.visit_unit()
         } else {
-            visitor.visit_seq(self)
+            let ret = visitor.visit_seq(&mut self)?;
+            // Like serde_json, reject input the visitor did not consume.
+            if self.iter.len() == 0 {
+                Ok(ret)
+            } else {
+                Err(de::Error::invalid_length(len, &"fewer elements in array"))
+            }
         }
     }
 
